@@ -871,6 +871,51 @@ func TestC11(t *testing.T) {
 			c.Fail(ev.Sig{"op": "bubble-leak"}, nil, nil, "goroutines left blocked after the scenario: %s; %s", leak, cc.String(alP))
 		}
 	})
+	// a server with a dictionary of its own (Server.Dict) that knows an application the
+	// process-wide default dictionary does not: what the local dictionary supports is what
+	// counts, for the admission and for the applications the success CEA advertises
+	ownXML := `<?xml version="1.0" encoding="UTF-8"?><diameter>
+<application id="7777" type="auth" name="Own-Auth"><avp name="Own-A" code="77771" must="M"><data type="Unsigned32"/></avp></application>
+<application id="7778" type="acct" name="Own-Acct"><avp name="Own-B" code="77781" must="M"><data type="Unsigned32"/></avp></application></diameter>`
+	ownF, err := refdict.Parse("own-applications", ownXML)
+	if err != nil {
+		t.Fatal(err)
+	}
+	var ownCtx *lib.Ctx
+	{
+		fs, _ := lib.Embedded()
+		files := []*refdict.File{fs[0]}
+		for _, f := range fs[1:] {
+			if strings.Contains(f.Name, "Credit") {
+				files = append(files, f)
+			}
+		}
+		files = append(files, ownF)
+		ownCtx, err = lib.Load("base+credit+own-applications", files...)
+		if err != nil {
+			t.Fatal(err)
+		}
+	}
+	alOwn := append(append([]appAVP{}, al...),
+		appAVP{"Auth(own 7777)", func() *refcodec.Node { return peer.U32(peer.AuthApp, 7777) }, ids(7777, "auth")},
+		appAVP{"Acct(own 7778)", func() *refcodec.Node { return peer.U32(peer.AcctApp, 7778) }, ids(7778, "acct")},
+		appAVP{"Acct(own 7777, wrong type)", func() *refcodec.Node { return peer.U32(peer.AcctApp, 7777) }, ids(7777, "acct")},
+		appAVP{"VS{v,Auth(own 7777)}", func() *refcodec.Node {
+			return peer.Group(peer.VSApp, peer.U32(peer.VendorID, 10415), peer.U32(peer.AuthApp, 7777))
+		}, ids(7777, "auth")},
+	)
+	rec.Suite("own-dictionary", len(alOwn)*2, func(c *ev.Case) {
+		a := c.I % len(alOwn)
+		cc := c11Case{host: true, realm: true, inband: -1, inband2: -1, apps: []int{a}, nAddrs: 1}
+		if c.I/len(alOwn) == 1 {
+			cc.apps = []int{a, (a + len(al)) % len(alOwn)}
+		}
+		c.Class("own-dictionary/napps=%d", len(cc.apps))
+		leak := runBubbleWD(t, rec, c, 60*time.Second, func() { runC11(c, ownCtx, alOwn, cc) })
+		if leak != "" && !c.Failed() {
+			c.Fail(ev.Sig{"op": "bubble-leak"}, nil, nil, "goroutines left blocked after the scenario: %s; %s", leak, cc.String(alOwn))
+		}
+	})
 	tlsCases := [][]uint32{nil, {0}, {1}, {1, 0}, {0, 1}, {2}, {1, 1}}
 	rec.Suite("over-tls", len(tlsCases)*2, func(c *ev.Case) {
 		inband := tlsCases[c.I%len(tlsCases)]
